@@ -425,7 +425,13 @@ def write_replay(prop, v):
 
 
 def write_evidence(prop, ev):
-    d = os.path.join(VERIF, "evidence")
+    # evidence/ only ever describes runs against /repo itself; runs against a scratch copy
+    # (VERIF_REPO=..., used for mutation demos) write to an ignored directory instead
+    if os.path.realpath(REPO) == "/repo":
+        d = os.path.join(VERIF, "evidence")
+    else:
+        d = os.path.join(VERIF, ".scratch", "evidence")
+        ev = dict(ev, repo=REPO)
     os.makedirs(d, exist_ok=True)
     path = os.path.join(d, prop + ".json")
     tmp = path + ".tmp"
